@@ -57,9 +57,11 @@ func genC10(t *rapid.T) c10Case {
 	return c
 }
 
+const c10SeededKey = 900001
+
 type c10Client struct {
 	set    func(k, v int) bool
-	get    func(k int)
+	get    func(k int) bool // true = the call yielded a value (loading kinds: no error)
 	lget   func(k int) error // nil func when not a loading kind
 	del    func(k int)
 	close  func()
@@ -106,28 +108,30 @@ func execC10(c c10Case, x *verifkit.Ctx) (fail *verifkit.Failure) {
 		if err != nil {
 			return verifkit.Failf("harness/build", "%v", err)
 		}
-		cl = c10Client{set: func(k, v int) bool { return cc.Set(k, v, 1) }, get: func(k int) { cc.Get(k) }, del: cc.Delete, close: cc.Close, wait: cc.Wait, length: cc.Len}
+		cl = c10Client{set: func(k, v int) bool { return cc.Set(k, v, 1) }, get: func(k int) bool { _, ok := cc.Get(k); return ok }, del: cc.Delete, close: cc.Close, wait: cc.Wait, length: cc.Len}
 	case "loading":
 		cc, err := theine.NewBuilder[int, int](int64(c.MaxSize)).RemovalListener(listener).Loading(loader).Build()
 		if err != nil {
 			return verifkit.Failf("harness/build", "%v", err)
 		}
-		cl = c10Client{set: func(k, v int) bool { return cc.Set(k, v, 1) }, get: func(k int) { _, _ = cc.Get(context.Background(), k) },
+		cl = c10Client{set: func(k, v int) bool { return cc.Set(k, v, 1) }, get: func(k int) bool { _, err := cc.Get(context.Background(), k); return err == nil },
 			lget: func(k int) error { _, err := cc.Get(context.Background(), k); return err }, del: cc.Delete, close: cc.Close, wait: cc.Wait, length: cc.Len}
 	case "hybrid":
 		sec := internal.NewSimpleMapSecondary[int, int]()
+		_ = sec.Set(c10SeededKey, 1, 1, 0) // a key that lives only in the secondary tier
 		cc, err := theine.NewBuilder[int, int](int64(c.MaxSize)).RemovalListener(listener).Hybrid(sec).Workers(2).Build()
 		if err != nil {
 			return verifkit.Failf("harness/build", "%v", err)
 		}
-		cl = c10Client{set: func(k, v int) bool { return cc.Set(k, v, 1) }, get: func(k int) { _, _, _ = cc.Get(k) }, del: func(k int) { _ = cc.Delete(k) }, close: cc.Close}
+		cl = c10Client{set: func(k, v int) bool { return cc.Set(k, v, 1) }, get: func(k int) bool { _, ok, _ := cc.Get(k); return ok }, del: func(k int) { _ = cc.Delete(k) }, close: cc.Close}
 	default:
 		sec := internal.NewSimpleMapSecondary[int, int]()
+		_ = sec.Set(c10SeededKey, 1, 1, 0)
 		cc, err := theine.NewBuilder[int, int](int64(c.MaxSize)).RemovalListener(listener).Hybrid(sec).Workers(2).Loading(loader).Build()
 		if err != nil {
 			return verifkit.Failf("harness/build", "%v", err)
 		}
-		cl = c10Client{set: func(k, v int) bool { return cc.Set(k, v, 1) }, get: func(k int) { _, _ = cc.Get(context.Background(), k) },
+		cl = c10Client{set: func(k, v int) bool { return cc.Set(k, v, 1) }, get: func(k int) bool { _, err := cc.Get(context.Background(), k); return err == nil },
 			lget: func(k int) error { _, err := cc.Get(context.Background(), k); return err }, del: func(k int) { _ = cc.Delete(k) }, close: cc.Close}
 	}
 	if c.Stall && (c.Kind == "hybrid" || c.Kind == "hybridloading") {
@@ -222,7 +226,23 @@ func execC10(c c10Case, x *verifkit.Ctx) (fail *verifkit.Failure) {
 	go func() {
 		cl.set(424242, 1)
 		cl.del(424242)
-		cl.get(1)
+		if cl.lget == nil {
+			// "once Close has returned Get misses": keys the writers stored, and (hybrid) a key whose only
+			// copy is in the secondary tier
+			for _, k := range []int{1, 2, 3, 424242, c10SeededKey} {
+				if cl.get(k) {
+					post <- verifkit.Failf("close/get-after-close-hit", "%s: Get(%d) returned a value after Close had returned", c.Kind, k)
+					return
+				}
+			}
+		} else {
+			for _, k := range []int{1, c10SeededKey} {
+				if err := cl.lget(k); !errors.Is(err, internal.ErrCacheClosed) {
+					post <- verifkit.Failf("close/loading-get-after-close", "%s: loading Get(%d) after Close returned %v, want the cache-closed error", c.Kind, k, err)
+					return
+				}
+			}
+		}
 		if cl.length != nil {
 			if l := cl.length(); l != 0 {
 				post <- verifkit.Failf("close/not-final", "%s: Len is %d after Close and a further Set", c.Kind, l)
@@ -296,7 +316,7 @@ func TestVerifC10(t *testing.T) {
 			{Kind: "hybrid", MaxSize: 16, Writers: 2200, WOps: 1, Readers: 1, Stall: true, CloseAt: 2200},
 			{Kind: "hybridloading", MaxSize: 1000, Writers: 40, WOps: 100, Readers: 4, Stall: false, CloseAt: 1000},
 		},
-		Rule: "C10: rapid draws the cache kind (plain, loading, hybrid, hybrid loading - built through the public builders), MaxSize, 1..2500 writer goroutines (classes below and above the write queue's capacity), 0..8 readers, 0..4 goroutines calling Wait in a loop meanwhile, whether maintenance is held inside a gated removal listener when Close lands (so that the queue is full and writers are parked on it), the moment of Close, and the calls made after Close (Set, Delete, Get, loading Get, second Close, Wait); non-trivial = more writes in flight than the queue holds at Close, or a hybrid cache, or Wait after Close",
+		Rule: "C10: rapid draws the cache kind (plain, loading, hybrid, hybrid loading - built through the public builders), MaxSize, 1..2500 writer goroutines (classes below and above the write queue's capacity), 0..8 readers, 0..4 goroutines calling Wait in a loop meanwhile, whether maintenance is held inside a gated removal listener when Close lands (so that the queue is full and writers are parked on it), the moment of Close, and the calls made after Close (Set, Delete, Get of stored keys and - hybrid kinds - of a key that lives only in the secondary tier, loading Get, second Close, Wait); non-trivial = more writes in flight than the queue holds at Close, or a hybrid cache, or Wait after Close",
 		Assumptions: []string{
 			"a call that has not returned 5 s after Close returned, while it is parked in a channel send and no background goroutine of that cache exists any more, is reported as blocked for ever (stack classification); real scheduler, failures are not re-executed",
 			"background goroutines are recognised by the frames Store.maintenance / Store.processSecondary in the goroutine profile, counted relative to the start of the case",
